@@ -43,6 +43,9 @@ CLAIMED = {
                  "and by real DSA-tuto/Max-Sum computations; every start order and per-channel-FIFO interleaving is explored (sleep-set reduced); the oracle compares each "
                  "on_new_cycle call with the tagged messages actually sent in the previous round.",
             "Bounded: pair (3 rounds), chain-3 (2 rounds), triangle and star-3 (1 complete round in quick, 2 in thorough), subsets fixed per computation on the larger graphs; NCBB not driven.", "4/C08", S),
+    "C09": ("S", "Real DbaComputation objects with symbolic table entries in [0, 2*infinity], solver-chosen initial values, tie choices, max_distance in {d, d+1} and FIFO schedules; "
+                 "at every finished() call z3 decides that every constraint entry of the assignment held at that moment is below infinity.",
+            "Bounded: <= 3 variables, domain <= 3, <= 8 cycles per computation (later finishes outside the claim), canonical schedule on 3-variable graphs in quick.", "4/C09", S),
     "C10": ("S", "One generic harness runs the real computations of all 11 listed algorithms on their real graph models with symbolic tables, symbolic noise and "
                  "arbitrary random choices; a monitor on the value_selection funnel and on current_value decides on every explored path that each reported value is unset or a domain member.",
             "Bounded: pair, pair+isolated variable (chain-3 for some), domain 2, canonical schedule in quick (all schedules on the pair in thorough), 16-40 transitions per run; "
